@@ -16,6 +16,7 @@ def dispatch (op : String) (inp out : Json) : Json :=
   | "value" => runValue inp out
   | "invoke" => runInvoke inp out
   | "history" => runHistory inp out
+  | "batchrace" => runHistory inp out
   | "repeat" => runRepeat inp out
   | "exportrt" => runExportRT inp out
   | "import" => runImport inp out
